@@ -741,7 +741,20 @@ static void mode_solve(uint64_t seed, bool th) {
         bool expect = c.solver != "richardson";
         GUARD(op_solve(c, *A, rp, f, grid ? "poisson" : "spd_m", expect));
     }
-    // rebuild(4 A) on one object = a fresh hierarchy from 4 A (direct coarse level included)
+    // thin strips: one grid line per rank (every row has off-rank neighbours), every run-time relaxation type with CG
+    {
+        int ny = NP > 1 ? NP : 4, nx = g.range(std::max(14, 60 / ny + 1), 28);
+        auto A = vr::poisson2d(nx, ny);
+        int n = A->nrows;
+        part rp(NP + 1, 0); for (int r = 0; r <= NP; ++r) rp[r] = NP > 1 ? r * nx : (r ? n : 0);
+        std::vector<double> f(n); for (auto &v : f) v = g.range(-5, 5); f[0] += 1;
+        int k = 0;
+        for (auto rl : RELAX) {
+            cfg c{COARS[(k++ + seed) % 2], rl, "cg", false, 2};
+            if (const char *e = getenv("VERIF_COARS")) c.coarsening = e;
+            GUARD(op_solve(c, *A, rp, f, "thinstrip", true));
+        }
+    }
     for (int k = 0; k < (th ? 12 : 3); ++k) {
         cfg c{COARS[k % 2], k % 3 == 2 ? "damped_jacobi" : "spai0", k % 2 ? "bicgstab" : "cg", g.coin(0.4), g.range(2, 3)};
         auto A = g.coin() ? vr::poisson2d(g.range(8, 14), g.range(6, 12), g.range(1, 2), 1) : vr::random_mmatrix(g, g.range(60, 160), 0.04, 3, 1, true);
